@@ -48,6 +48,15 @@ type FilterPlan struct {
 	// filter headers are rolled back first). Zero values = one-stage session.
 	PreLen  int `json:",omitempty"`
 	PreFork int `json:",omitempty"`
+	// Family iofault (iofault.go): IOStart = length of the honest chain the
+	// session begins with (synced before the first event); BlockCPs = hard-coded
+	// BLOCK-header checkpoints (heights of the planned trunk); IOEvents = the
+	// stages of the session; IOLazy = the filter headers are not synced before
+	// the first event.
+	IOStart  int       `json:",omitempty"`
+	BlockCPs []int32   `json:",omitempty"`
+	IOEvents []IOEvent `json:",omitempty"`
+	IOLazy   bool      `json:",omitempty"`
 }
 
 // PeerBehaviour describes one scripted peer of a filter session.
@@ -107,6 +116,9 @@ type FilterSession struct {
 	// Stage2Lag: how far the filter tip was behind the block tip when the
 	// stage-2 filter rounds began.
 	Stage1Tip, Stage2Lag int
+	// Family iofault: what became of every armed fault; the most recent step.
+	FaultLog []IOFaultRecord
+	lastStep *StepObs
 }
 
 // TruncatedServed sums, over the session's liars, the cfheaders answers cut
@@ -193,6 +205,13 @@ func (fs *FilterSession) syncHeaders(tip *chaingen.Node, kind string) error {
 		if fs.OnStep != nil {
 			fs.OnStep(fs, st)
 		}
+		if st.Crash != "" {
+			// The client went down and was restarted (fault.go): its peers
+			// connect again and the loop offers the chain again.
+			if err := fs.Reconnect(); err != nil {
+				return err
+			}
+		}
 		if len(st.Post) == len(st.Pre) && commonPrefix(st.Pre, st.Post) == len(st.Pre) {
 			return nil // refused (e.g. not heavier): stop trying
 		}
@@ -214,6 +233,35 @@ func (fs *FilterSession) senderIndex() int {
 	return 0
 }
 
+// Reconnect connects, after a restart of the client (Session.Restart), a new
+// peer for every peer that was connected when it went down; the new peer
+// behaves as the old one did.
+func (fs *FilterSession) Reconnect() error {
+	for _, old := range append([]*SimPeer(nil), fs.Peers...) {
+		if !old.gone {
+			continue
+		}
+		old.gone = false
+		old.superseded = true
+		if fs.Net.IsBanned(old.Addr) {
+			continue
+		}
+		p, err := fs.AddPeer(fs.View.Tip().Height, old.Services)
+		if err != nil {
+			return err
+		}
+		fs.Behav[p.Addr] = fs.Behav[old.Addr]
+		if l := fs.Liars[old.Addr]; l != nil {
+			fs.Liars[p.Addr] = l
+			p.Rec.Mutate = l.Mutate
+		}
+		if fs.Behav[old.Addr].Silent {
+			fs.Net.SetSilent(p.Addr, true)
+		}
+	}
+	return nil
+}
+
 // step wraps one block-manager call as an observed step.
 func (fs *FilterSession) step(kind, desc string, f func()) (*StepObs, error) {
 	st, err := fs.beginStep(kind, desc, -1, nil, nil)
@@ -230,6 +278,14 @@ func (fs *FilterSession) step(kind, desc string, f func()) (*StepObs, error) {
 		}
 	})
 	fs.Net.Wait()
+	if err := fs.afterHandler(st); err != nil {
+		return st, err
+	}
+	if st.Crash != "" {
+		if err := fs.Reconnect(); err != nil {
+			return st, err
+		}
+	}
 	if st.Panic != "" {
 		fs.PanicKind, fs.PanicText = kind, st.Panic
 		fs.note("PANIC in %s: %s", kind, st.Panic)
